@@ -115,6 +115,7 @@ class Pool:
                         if not msg["ready"]:
                             raise HarnessFailure("worker failed to start:\n" + msg.get("error", ""))
                         w.ready = True
+                        w.world = msg.get("world")
                         pending.discard(w)
                 if w.dead and w in pending:
                     raise HarnessFailure("worker died during start-up")
@@ -177,6 +178,11 @@ class Pool:
             except Exception:
                 pass
             w.stop()
+            # a worker that was killed (timeout) cannot remove its scratch world itself
+            wr = getattr(w, "world", None)
+            if wr and os.path.basename(wr).startswith("spilsim-") and os.path.isdir(wr):
+                import shutil
+                shutil.rmtree(wr, ignore_errors=True)
 
 
 def hash_seed_of(seed):
